@@ -904,9 +904,25 @@ pub fn run_parse(args: &[Sexp], value: bool) -> Option<Sexp> {
     by_setters.wildcard_set_star_limit(settings.wildcard_star_limit);
     let a = run(&by_settings);
     let b = run(&by_setters);
-    if a == b {
-        Some(a)
-    } else {
-        Some(Sexp::tagged("configuration-paths-differ", vec![a, b]))
+    if a != b {
+        return Some(Sexp::tagged("configuration-paths-differ", vec![a, b]));
     }
+    // with the default limits Scheme::parse / Scheme::parse_value are a third way in
+    if settings == wirefilter::ParserSettings::default() {
+        let c = if value {
+            match info.scheme.parse_value(&text) {
+                Ok(x) => Sexp::tagged("ok", vec![enc_iexpr(&info, x.expression(), "field")]),
+                Err(e) => enc_parse_error(&e),
+            }
+        } else {
+            match info.scheme.parse(&text) {
+                Ok(x) => Sexp::tagged("ok", vec![enc_lexpr(&info, x.expression())]),
+                Err(e) => enc_parse_error(&e),
+            }
+        };
+        if a != c {
+            return Some(Sexp::tagged("scheme-parse-differs", vec![a, c]));
+        }
+    }
+    Some(a)
 }
